@@ -53,9 +53,10 @@ class VClock(Clock):
         return self.s.now
 
 
-def chart():
+def chart(watchdog=False):
     sc = Statechart('c20')
-    sc.add_state(CompoundState('root', initial='a'), None)
+    # variant: the statechart arms a far-away delayed internal event when it starts; it is never due during a run
+    sc.add_state(CompoundState('root', initial='a', on_entry="send('wd', delay=100000)" if watchdog else None), None)
     sc.add_state(BasicState('a'), 'root')
     sc.add_state(BasicState('b'), 'root')
     sc.add_state(FinalState('f'), 'root')
@@ -95,7 +96,8 @@ def run(ch, tier):
     install_monitoring(CODES)
     ft, ftime = make_fakes(sched)
     seen = []
-    it = Interpreter(chart(), clock=VClock(sched), initial_context={'seen': seen})
+    watchdog = cs.flag(1, 3)
+    it = Interpreter(chart(watchdog), clock=VClock(sched), initial_context={'seen': seen})
 
     def listener(me):
         if me.name == 'step started':
@@ -221,9 +223,10 @@ def run(ch, tier):
         res.stats[k] += v
     res.stats['decisions'] += sched.steps
     res.stats['fine_runs' if fine else 'coarse_runs'] += 1
+    res.stats['runs_with_pending_delayed_internal_event'] += int(watchdog)
     res.sim_time = sched.now - 1000.0
     H = sched.events
-    ctx = dict(knobs=dict(fine=fine, density=density, interval=interval, execute_all=execute_all, clients=nclients, ending=ending),
+    ctx = dict(knobs=dict(fine=fine, density=density, interval=interval, execute_all=execute_all, clients=nclients, ending=ending, watchdog=watchdog),
                scripts=scripts, history_tail=[e for e in H if e[0] <= mark][-40:])
     res.extra = evidence(H, sched)
     if sched.capped:
